@@ -649,3 +649,14 @@ package kv
 //@ assume at call Sprintf#1: result == seqKey(prefixKey, 9223372036854775807) because "meaning of the ghost function"
 //@ assert at call KeyRangeScanReverse#0: lowerBound == seqKey(prefixKey, 0) && upperBound == seqKey(prefixKey, 9223372036854775807)
 //@ modifies *
+
+//@ func DB.Close(recv) (err)
+//@ trusted
+//@ modifies *
+//@ preserves fields(github.com/oxia-db/oxia/server.followerController), fields(github.com/oxia-db/oxia/server.leaderController), fields(github.com/oxia-db/oxia/server/wal.wal)
+//@ note trusted: closes the database of package kv; cannot reach the controllers' state
+
+//@ func Factory.NewSnapshotLoader(recv, namespace, shardId) (loader, err)
+//@ trusted
+//@ modifies nothing
+//@ ensures err == nil ==> loader != nil
